@@ -33,33 +33,91 @@ fn expect2(ids: &[Uuid], a: u128, b: u128, ka: bool, kb: bool, what_len: &str) {
 }
 
 harnesses! {
-    /// envelope half: spaces, thermal bridges, wall/window constructions, materials, glasses, frames
+    /// spaces (3) and thermal bridges (2)
     #[kani::unwind(5)]
     #[kani::stub(alloc::fmt::format, crate::stubs::fmt_stub)]
-    fn purge_envelope(s) {
+    fn purge_spaces_tbs(s) {
         let mut m = Model::default();
         m.spaces.push(sp(1, None, None));
         m.spaces.push(sp(2, None, None));
         m.spaces.push(sp(3, None, None));
-        // one wall: space in {1,2,3,absent}, next_to in {None,1,2,3}
         let ws = s.below(4);
         let wn = s.below(4);
-        let wc = pick(s, 11, 12);
         let wall_space = if ws < 3 { uid(1 + ws as u128) } else { uid(0xdead) };
         let wall_next = if wn < 3 { Some(uid(1 + wn as u128)) } else { None };
-        m.walls.push(Wall { id: uid(31), name: String::new(), bounds: BoundaryType::INTERIOR, cons: wc, space: wall_space, next_to: wall_next, geometry: WallGeom::default() });
-        let has_win = s.bool();
-        let winc = pick(s, 21, 22);
-        if has_win {
-            m.windows.push(Window { id: uid(41), name: String::new(), cons: winc, wall: uid(31), geometry: WinGeom::default() });
+        m.walls.push(Wall { id: uid(31), name: String::new(), bounds: BoundaryType::INTERIOR, cons: uid(11), space: wall_space, next_to: wall_next, geometry: WallGeom::default() });
+        let (l1, l2) = (s.gi(-1, 1), s.gi(-1, 1));
+        m.thermal_bridges.push(ThermalBridge { id: uid(81), name: String::new(), kind: ThermalBridgeKind::ROOF, l: l1, psi: 0.5 });
+        m.thermal_bridges.push(ThermalBridge { id: uid(82), name: String::new(), kind: ThermalBridgeKind::CORNER, l: l2, psi: 0.5 });
+        let w1 = purge_unused(&mut m);
+        let used_sp = |i: u8| ws == i || wn == i;
+        let nsp = used_sp(0) as usize + used_sp(1) as usize + used_sp(2) as usize;
+        assert!(m.spaces.len() == nsp, "C16:exactly the spaces no wall refers to are removed");
+        // survivors in original order: first survivor is the lowest used index, last the highest
+        if nsp > 0 {
+            let first = if used_sp(0) { 1 } else if used_sp(1) { 2 } else { 3 };
+            assert!(m.spaces[0].id.as_u128() == first, "C16:space order kept (first survivor)");
         }
-        // wall constructions 11, 12 with one layer each pointing to materials {51,52,absent}
+        if nsp == 2 {
+            let last = if used_sp(2) { 3 } else { 2 };
+            assert!(m.spaces[1].id.as_u128() == last, "C16:space order kept (second survivor)");
+        }
+        let nt = (l1 != 0.0) as usize + (l2 != 0.0) as usize;
+        assert!(m.thermal_bridges.len() == nt, "C16:exactly the bridges of zero length are removed");
+        if nt > 0 {
+            assert!(m.thermal_bridges[0].id.as_u128() == if l1 != 0.0 { 81 } else { 82 }, "C16:bridge order kept");
+        }
+        assert!(m.walls.len() == 1, "C16:walls are never removed");
+        cover!(nsp == 1, "one space survives");
+        cover!(nsp == 2 && nt == 1, "two spaces, one bridge survive");
+        let w2 = purge_unused(&mut m);
+        assert!(m.spaces.len() == nsp && m.thermal_bridges.len() == nt, "C16:purging twice equals purging once");
+        std::mem::forget(m);
+        std::mem::forget((w1, w2));
+    }
+
+    /// wall constructions (2) and their materials (2): chain removal in one call
+    #[kani::unwind(5)]
+    #[kani::stub(alloc::fmt::format, crate::stubs::fmt_stub)]
+    fn purge_wallcons(s) {
+        let mut m = Model::default();
+        let wc = pick(s, 11, 12);
+        m.walls.push(Wall { id: uid(31), name: String::new(), bounds: BoundaryType::EXTERIOR, cons: wc, space: uid(1), next_to: None, geometry: WallGeom::default() });
         let (ma, mb) = (pick(s, 51, 52), pick(s, 51, 52));
         m.cons.wallcons.push(WallCons { id: uid(11), name: String::new(), layers: vec![Layer { material: ma, e: 0.1 }], absorptance: 0.5 });
         m.cons.wallcons.push(WallCons { id: uid(12), name: String::new(), layers: vec![Layer { material: mb, e: 0.1 }], absorptance: 0.5 });
         m.cons.materials.push(Material { id: uid(51), name: String::new(), properties: MatProps::Resistance { resistance: 1.0, vapour_diff: None } });
         m.cons.materials.push(Material { id: uid(52), name: String::new(), properties: MatProps::Resistance { resistance: 2.0, vapour_diff: None } });
-        // window constructions 21, 22 with glass in {61,62,absent}, frame in {71,72,absent}
+        let w1 = purge_unused(&mut m);
+        let (k11, k12) = (wc == uid(11), wc == uid(12));
+        assert!(m.cons.wallcons.len() == (k11 || k12) as usize, "C16:exactly the wall constructions no wall uses are removed");
+        if k11 || k12 {
+            assert!(m.cons.wallcons[0].id.as_u128() == if k11 { 11 } else { 12 }, "C16:the used wall construction is kept");
+        }
+        let used_m = |id: u128| (k11 && ma == uid(id)) || (k12 && mb == uid(id));
+        let nm = used_m(51) as usize + used_m(52) as usize;
+        assert!(m.cons.materials.len() == nm, "C16:exactly the materials not reachable from remaining constructions are removed");
+        if nm == 1 {
+            assert!(m.cons.materials[0].id.as_u128() == if used_m(51) { 51 } else { 52 }, "C16:the reachable material is kept");
+        }
+        cover!(k12 && used_m(51) && !used_m(52), "material kept through the second construction only");
+        cover!(!k11 && !k12 && nm == 0, "dangling construction link: everything unreachable goes");
+        let w2 = purge_unused(&mut m);
+        assert!(m.cons.wallcons.len() == (k11 || k12) as usize && m.cons.materials.len() == nm, "C16:purging twice equals purging once");
+        std::mem::forget(m);
+        std::mem::forget((w1, w2));
+    }
+
+    /// window constructions (2), glasses (2), frames (2)
+    #[kani::unwind(5)]
+    #[kani::stub(alloc::fmt::format, crate::stubs::fmt_stub)]
+    fn purge_wincons(s) {
+        let mut m = Model::default();
+        let has_win = s.bool();
+        let winc = pick(s, 21, 22);
+        if has_win {
+            m.windows.push(Window { id: uid(41), name: String::new(), cons: winc, wall: uid(31), geometry: WinGeom::default() });
+        }
         let (ga, gb, fa, fb) = (pick(s, 61, 62), pick(s, 61, 62), pick(s, 71, 72), pick(s, 71, 72));
         m.cons.wincons.push(WinCons { id: uid(21), name: String::new(), glass: ga, frame: fa, f_f: 0.25, delta_u: 0.0, g_glshwi: None, c_100: 27.0 });
         m.cons.wincons.push(WinCons { id: uid(22), name: String::new(), glass: gb, frame: fb, f_f: 0.25, delta_u: 0.0, g_glshwi: None, c_100: 27.0 });
@@ -67,80 +125,70 @@ harnesses! {
         m.cons.glasses.push(Glass { id: uid(62), name: String::new(), u_value: 2.0, g_gln: 0.5 });
         m.cons.frames.push(Frame { id: uid(71), name: String::new(), u_value: 1.0, absorptivity: 0.5 });
         m.cons.frames.push(Frame { id: uid(72), name: String::new(), u_value: 2.0, absorptivity: 0.5 });
-        // two bridges with length in {-1, 0, 1}
-        let (l1, l2) = (s.gi(-1, 1), s.gi(-1, 1));
-        m.thermal_bridges.push(ThermalBridge { id: uid(81), name: String::new(), kind: ThermalBridgeKind::ROOF, l: l1, psi: 0.5 });
-        m.thermal_bridges.push(ThermalBridge { id: uid(82), name: String::new(), kind: ThermalBridgeKind::CORNER, l: l2, psi: 0.5 });
-        let warn_before = check(&m).len();
-
         let w1 = purge_unused(&mut m);
-
-        // independent reachability
-        let used_sp = |i: u8| ws == i || wn == i;
-        let sids: Vec<Uuid> = m.spaces.iter().map(|x| x.id).collect();
-        let nsp = used_sp(0) as usize + used_sp(1) as usize + used_sp(2) as usize;
-        assert!(sids.len() == nsp, "C16:exactly the spaces no wall refers to are removed");
-        let mut k = 0;
-        let mut q = 0u8;
-        while q < 3 {
-            if used_sp(q) {
-                assert!(sids[k] == uid(1 + q as u128), "C16:space order kept");
-                k += 1;
-            }
-            q += 1;
-        }
-        let tids: Vec<Uuid> = m.thermal_bridges.iter().map(|x| x.id).collect();
-        expect2(&tids, 81, 82, l1 != 0.0, l2 != 0.0, "bridges");
-        let (k11, k12) = (wc == uid(11), wc == uid(12));
-        let cids: Vec<Uuid> = m.cons.wallcons.iter().map(|x| x.id).collect();
-        expect2(&cids, 11, 12, k11, k12, "wallcons");
         let (k21, k22) = (has_win && winc == uid(21), has_win && winc == uid(22));
-        let wids: Vec<Uuid> = m.cons.wincons.iter().map(|x| x.id).collect();
-        expect2(&wids, 21, 22, k21, k22, "wincons");
-        // chains: materials of the constructions that remain, glasses/frames of the window constructions that remain
-        let used_m = |id: u128| (k11 && ma == uid(id)) || (k12 && mb == uid(id));
-        let mids: Vec<Uuid> = m.cons.materials.iter().map(|x| x.id).collect();
-        expect2(&mids, 51, 52, used_m(51), used_m(52), "materials");
+        assert!(m.cons.wincons.len() == (k21 || k22) as usize, "C16:exactly the window constructions no window uses are removed");
+        if k21 || k22 {
+            assert!(m.cons.wincons[0].id.as_u128() == if k21 { 21 } else { 22 }, "C16:the used window construction is kept");
+        }
         let used_g = |id: u128| (k21 && ga == uid(id)) || (k22 && gb == uid(id));
-        let gids: Vec<Uuid> = m.cons.glasses.iter().map(|x| x.id).collect();
-        expect2(&gids, 61, 62, used_g(61), used_g(62), "glasses");
         let used_f = |id: u128| (k21 && fa == uid(id)) || (k22 && fb == uid(id));
-        let fids: Vec<Uuid> = m.cons.frames.iter().map(|x| x.id).collect();
-        expect2(&fids, 71, 72, used_f(71), used_f(72), "frames");
-        assert!(m.walls.len() == 1 && m.windows.len() == has_win as usize, "C16:walls and windows are never removed");
-        cover!(nsp == 1 && !k11 && k12 && used_m(51) && !used_m(52), "chain removal in one call");
-        cover!(has_win && k22 && used_g(61) && used_f(72), "window construction chain kept");
-        // no new broken link; idempotence
-        let warn_after = check(&m).len();
-        assert!(warn_after <= warn_before, "C16:purging introduces no broken link");
+        let (ng, nf) = (used_g(61) as usize + used_g(62) as usize, used_f(71) as usize + used_f(72) as usize);
+        assert!(m.cons.glasses.len() == ng, "C16:exactly the glazings not reachable are removed");
+        assert!(m.cons.frames.len() == nf, "C16:exactly the frames not reachable are removed");
+        if ng == 1 { assert!(m.cons.glasses[0].id.as_u128() == if used_g(61) { 61 } else { 62 }, "C16:the reachable glazing is kept"); }
+        if nf == 1 { assert!(m.cons.frames[0].id.as_u128() == if used_f(71) { 71 } else { 72 }, "C16:the reachable frame is kept"); }
+        cover!(k22 && used_g(61) && used_f(72), "chain through the second window construction");
+        cover!(!has_win, "no window: everything goes");
         let w2 = purge_unused(&mut m);
-        assert!(m.spaces.len() == nsp && m.thermal_bridges.len() == tids.len() && m.cons.wallcons.len() == cids.len() && m.cons.wincons.len() == wids.len()
-            && m.cons.materials.len() == mids.len() && m.cons.glasses.len() == gids.len() && m.cons.frames.len() == fids.len(), "C16:purging twice equals purging once");
+        assert!(m.cons.wincons.len() == (k21 || k22) as usize && m.cons.glasses.len() == ng && m.cons.frames.len() == nf, "C16:purging twice equals purging once");
         std::mem::forget(m);
-        std::mem::forget((w1, w2, sids, tids, cids, wids, mids, gids, fids));
+        std::mem::forget((w1, w2));
     }
 
-    /// usage half: loads, thermostats, yearly/weekly/daily schedules (sharing and chains)
+    /// loads (2) and thermostats (2) of two spaces, one of which may itself be purged
     #[kani::unwind(5)]
     #[kani::stub(alloc::fmt::format, crate::stubs::fmt_stub)]
-    fn purge_usage(s) {
+    fn purge_loads(s) {
         let mut m = Model::default();
-        // two spaces; space 2 is used by the wall only if `s2used`
         let (la, lb) = (opt_pick(s, 101, 102), opt_pick(s, 101, 102));
         let (ta, tb) = (opt_pick(s, 111, 112), opt_pick(s, 111, 112));
         m.spaces.push(sp(1, la, ta));
         m.spaces.push(sp(2, lb, tb));
         let s2used = s.bool();
         m.walls.push(Wall { id: uid(31), name: String::new(), bounds: BoundaryType::INTERIOR, cons: uid(0), space: uid(1), next_to: if s2used { Some(uid(2)) } else { None }, geometry: WallGeom::default() });
-        // loads 101, 102: people / equipment / lighting schedules
+        m.loads.push(SpaceLoads { id: uid(101), name: String::new(), area_per_person: 10.0, people_schedule: None, people_sensible: 1.0, people_latent: 1.0, equipment: 1.0, equipment_schedule: None, lighting: 1.0, lighting_schedule: None });
+        m.loads.push(SpaceLoads { id: uid(102), name: String::new(), area_per_person: 10.0, people_schedule: None, people_sensible: 1.0, people_latent: 1.0, equipment: 1.0, equipment_schedule: None, lighting: 1.0, lighting_schedule: None });
+        m.thermostats.push(Thermostat { id: uid(111), name: String::new(), temp_max: None, temp_min: None });
+        m.thermostats.push(Thermostat { id: uid(112), name: String::new(), temp_max: None, temp_min: None });
+        let w1 = purge_unused(&mut m);
+        assert!(m.spaces.len() == 1 + s2used as usize, "C16:exactly the spaces no wall refers to are removed");
+        let used_l = |id: u128| la == Some(uid(id)) || (s2used && lb == Some(uid(id)));
+        let used_t = |id: u128| ta == Some(uid(id)) || (s2used && tb == Some(uid(id)));
+        let (nl, nt) = (used_l(101) as usize + used_l(102) as usize, used_t(111) as usize + used_t(112) as usize);
+        assert!(m.loads.len() == nl, "C16:exactly the load definitions no remaining space uses are removed");
+        assert!(m.thermostats.len() == nt, "C16:exactly the thermostats no remaining space uses are removed");
+        if nl == 1 { assert!(m.loads[0].id.as_u128() == if used_l(101) { 101 } else { 102 }, "C16:the used load definition is kept"); }
+        if nt == 1 { assert!(m.thermostats[0].id.as_u128() == if used_t(111) { 111 } else { 112 }, "C16:the used thermostat is kept"); }
+        cover!(!s2used && lb == Some(uid(102)) && !used_l(102) && used_l(101), "loads of a purged space go in the same call");
+        cover!(nl == 2 && nt == 2, "everything shared and kept");
+        let w2 = purge_unused(&mut m);
+        assert!(m.loads.len() == nl && m.thermostats.len() == nt, "C16:purging twice equals purging once");
+        std::mem::forget(m);
+        std::mem::forget((w1, w2));
+    }
+
+    /// schedule chain: loads/thermostat -> yearly (2) -> weekly (2) -> daily (2)
+    #[kani::unwind(5)]
+    #[kani::stub(alloc::fmt::format, crate::stubs::fmt_stub)]
+    fn purge_schedules(s) {
+        let mut m = Model::default();
+        m.spaces.push(sp(1, Some(uid(101)), Some(uid(111))));
+        m.walls.push(Wall { id: uid(31), name: String::new(), bounds: BoundaryType::EXTERIOR, cons: uid(0), space: uid(1), next_to: None, geometry: WallGeom::default() });
         let (p1, e1, g1) = (opt_pick(s, 121, 122), opt_pick(s, 121, 122), opt_pick(s, 121, 122));
-        let p2 = opt_pick(s, 121, 122);
         m.loads.push(SpaceLoads { id: uid(101), name: String::new(), area_per_person: 10.0, people_schedule: p1, people_sensible: 1.0, people_latent: 1.0, equipment: 1.0, equipment_schedule: e1, lighting: 1.0, lighting_schedule: g1 });
-        m.loads.push(SpaceLoads { id: uid(102), name: String::new(), area_per_person: 10.0, people_schedule: p2, people_sensible: 1.0, people_latent: 1.0, equipment: 1.0, equipment_schedule: None, lighting: 1.0, lighting_schedule: None });
         let (x1, n1) = (opt_pick(s, 121, 122), opt_pick(s, 121, 122));
         m.thermostats.push(Thermostat { id: uid(111), name: String::new(), temp_max: x1, temp_min: n1 });
-        m.thermostats.push(Thermostat { id: uid(112), name: String::new(), temp_max: None, temp_min: None });
-        // yearly 121, 122 -> weekly {131,132,absent}; weekly 131, 132 -> daily {141,142,absent}
         let (ya, yb) = (pick(s, 131, 132), pick(s, 131, 132));
         m.schedules.year.push(Schedule { id: uid(121), name: String::new(), values: vec![(ya, 365)] });
         m.schedules.year.push(Schedule { id: uid(122), name: String::new(), values: vec![(yb, 365)] });
@@ -149,39 +197,24 @@ harnesses! {
         m.schedules.week.push(ScheduleWeek { id: uid(132), name: String::new(), values: vec![(wb, 7)] });
         m.schedules.day.push(ScheduleDay { id: uid(141), name: String::new(), values: Vec::new() });
         m.schedules.day.push(ScheduleDay { id: uid(142), name: String::new(), values: Vec::new() });
-
         let w1 = purge_unused(&mut m);
-
-        let sp2 = s2used;
-        assert!(m.spaces.len() == 1 + sp2 as usize, "C16:exactly the spaces no wall refers to are removed");
-        let used_l = |id: u128| la == Some(uid(id)) || (sp2 && lb == Some(uid(id)));
-        let used_t = |id: u128| ta == Some(uid(id)) || (sp2 && tb == Some(uid(id)));
-        let lids: Vec<Uuid> = m.loads.iter().map(|x| x.id).collect();
-        expect2(&lids, 101, 102, used_l(101), used_l(102), "loads");
-        let thids: Vec<Uuid> = m.thermostats.iter().map(|x| x.id).collect();
-        expect2(&thids, 111, 112, used_t(111), used_t(112), "thermostats");
-        let (k101, k102, k111) = (used_l(101), used_l(102), used_t(111));
-        let used_y = |id: u128| {
-            let u = Some(uid(id));
-            (k101 && (p1 == u || e1 == u || g1 == u)) || (k102 && p2 == u) || (k111 && (x1 == u || n1 == u))
-        };
-        let yids: Vec<Uuid> = m.schedules.year.iter().map(|x| x.id).collect();
-        expect2(&yids, 121, 122, used_y(121), used_y(122), "yearly");
+        let used_y = |id: u128| { let u = Some(uid(id)); p1 == u || e1 == u || g1 == u || x1 == u || n1 == u };
         let (k121, k122) = (used_y(121), used_y(122));
         let used_w = |id: u128| (k121 && ya == uid(id)) || (k122 && yb == uid(id));
-        let wkids: Vec<Uuid> = m.schedules.week.iter().map(|x| x.id).collect();
-        expect2(&wkids, 131, 132, used_w(131), used_w(132), "weekly");
         let (k131, k132) = (used_w(131), used_w(132));
         let used_d = |id: u128| (k131 && wa == uid(id)) || (k132 && wb == uid(id));
-        let dids: Vec<Uuid> = m.schedules.day.iter().map(|x| x.id).collect();
-        expect2(&dids, 141, 142, used_d(141), used_d(142), "daily");
-        cover!(!sp2 && lb == Some(uid(102)) && !k102 && k101, "loads of a purged space are purged in the same call");
-        cover!(k121 && !k122 && k131 && !k132 && used_d(142) && !used_d(141), "schedule chain year->week->day");
-        cover!(k101 && k111 && p1 == x1 && p1.is_some(), "schedule shared between loads and thermostat");
+        let (ny, nw, nd) = (k121 as usize + k122 as usize, k131 as usize + k132 as usize, used_d(141) as usize + used_d(142) as usize);
+        assert!(m.schedules.year.len() == ny, "C16:exactly the yearly schedules not used by remaining loads/thermostats are removed");
+        assert!(m.schedules.week.len() == nw, "C16:exactly the weekly schedules not reachable are removed");
+        assert!(m.schedules.day.len() == nd, "C16:exactly the daily schedules not reachable are removed");
+        if ny == 1 { assert!(m.schedules.year[0].id.as_u128() == if k121 { 121 } else { 122 }, "C16:the used yearly schedule is kept"); }
+        if nw == 1 { assert!(m.schedules.week[0].id.as_u128() == if k131 { 131 } else { 132 }, "C16:the reachable weekly schedule is kept"); }
+        if nd == 1 { assert!(m.schedules.day[0].id.as_u128() == if used_d(141) { 141 } else { 142 }, "C16:the reachable daily schedule is kept"); }
+        cover!(k121 && !k122 && k132 && !k131 && used_d(141) && !used_d(142), "chain year->week->day");
+        cover!(ny == 0 && nw == 0 && nd == 0, "nothing used");
         let w2 = purge_unused(&mut m);
-        assert!(m.loads.len() == lids.len() && m.thermostats.len() == thids.len() && m.schedules.year.len() == yids.len()
-            && m.schedules.week.len() == wkids.len() && m.schedules.day.len() == dids.len() && m.spaces.len() == 1 + sp2 as usize, "C16:purging twice equals purging once");
+        assert!(m.schedules.year.len() == ny && m.schedules.week.len() == nw && m.schedules.day.len() == nd && m.loads.len() == 1 && m.thermostats.len() == 1, "C16:purging twice equals purging once");
         std::mem::forget(m);
-        std::mem::forget((w1, w2, lids, thids, yids, wkids, dids));
+        std::mem::forget((w1, w2));
     }
 }
